@@ -123,6 +123,14 @@ func buildScenarios(t *gen.Tree, good []string, rng *rand.Rand, tier string) []*
 				os.WriteFile(filepath.Join(d, "mock_gen.go"), []byte("package genmocks\n\n// Bystander must survive.\nconst Bystander = 1\n"), 0o644)
 			}})
 	}
+	// regeneration over an earlier output that is LONGER than the new one (the interface lost methods, a flag was
+	// dropped): nothing of the old file may survive
+	for fi, f := range fmts {
+		if tier == "quick" && fi == 2 {
+			continue
+		}
+		out = append(out, &scen{family: "success-out-over-longer-own-output", tree: t, argvPre: append([]string{}, f...), srcArg: ".", names: pick(1), cwdRel: src, out: []string{"mock_gen.go", "gen/sub/mock.go", "zz_generated.go"}[fi], prior: "ownlonger"})
+	}
 	out = append(out, &scen{family: "success-stdout", tree: t, srcArg: ".", names: pick(2), cwdRel: src, prior: "absent"})
 	out = append(out, &scen{family: "success-stdout", tree: t, argvPre: []string{"-stub", "-pkg", t.SrcName + "_test"}, srcArg: "./" + src, names: pick(1), cwdRel: ".", prior: "absent"})
 	// ---- failures: bad name at position k of n
@@ -355,6 +363,19 @@ func execScenario(moq *runner.Moq, work string, worker int, s *scen) (*cliOutcom
 				}
 			}
 			os.WriteFile(o.outAbs, own, 0o644)
+		case "ownlonger":
+			// the request's own output followed by declarations and comments a larger earlier request would have had
+			own := o.clean
+			if own == nil {
+				own = []byte("// Code generated by moq; DO NOT EDIT.\n\npackage " + s.tree.SrcName + "\n")
+			}
+			var pad bytes.Buffer
+			pad.Write(own)
+			for k := 0; k < 40; k++ {
+				fmt.Fprintf(&pad, "\n// leftoverMarker%d is part of what an earlier, larger generation wrote here.\nconst leftoverMarker%d = %d\n", k, k, k)
+			}
+			os.MkdirAll(filepath.Dir(o.outAbs), 0o755)
+			os.WriteFile(o.outAbs, pad.Bytes(), 0o644)
 		case "ownlayout":
 			// the same declarations in another layout: what -fmt noop (or, for noop requests, gofmt) produced
 			alt := *s
